@@ -380,8 +380,12 @@ func hexGen(maxLen int, nulFree bool) *rapid.Generator[string] {
 			lo = 1
 		}
 		var b []byte
-		if rapid.IntRange(0, 9).Draw(t, "long") == 0 {
+		if cls := rapid.IntRange(0, 11).Draw(t, "long"); cls == 0 {
 			b = rapid.SliceOfN(rapid.ByteRange(lo, 255), 0, maxLen).Draw(t, "s")
+		} else if cls == 1 && maxLen >= 300 {
+			// around and beyond 255/256 and larger: sizes no PDU field reaches
+			n := rapid.SampledFrom([]int{254, 255, 256, 257, 511, 512, 1000, 4096, 70000}).Draw(t, "biglen")
+			b = bytes.Repeat([]byte{byte(0x41 + n%20)}, n)
 		} else {
 			b = rapid.SliceOfN(rapid.ByteRange(lo, 255), 0, 12).Draw(t, "s")
 		}
@@ -417,6 +421,14 @@ var writeOp = rapid.Custom(func(t *rapid.T) Op {
 func TestWriterHistories(t *testing.T) {
 	rapid.Check(t, func(t *rapid.T) {
 		ops := rapid.SliceOfN(writeOp, 0, 200).Draw(t, "ops")
+		if rapid.Bool().Draw(t, "nofailure") {
+			// half of the histories carry no injected failure, so that long histories reach the mirrored reads
+			for i := range ops {
+				if ops[i].K == "fix" && len(ops[i].S)/2 > ops[i].N {
+					ops[i].N = len(ops[i].S)/2 + ops[i].N&7
+				}
+			}
+		}
 		c := WCase{Ops: ops}
 		rec.Eval()
 		failAt := -1
@@ -456,6 +468,14 @@ var readOp = rapid.Custom(func(t *rapid.T) Op {
 func TestReaderHistories(t *testing.T) {
 	rapid.Check(t, func(t *rapid.T) {
 		in := rapid.SliceOfN(rapid.OneOf(rapid.Byte(), rapid.Just(byte(0))), 0, 120).Draw(t, "input")
+		if rapid.IntRange(0, 5).Draw(t, "longinput") == 0 {
+			// a long NUL-free run (terminated or not) in front: C strings longer than any PDU field
+			run := bytes.Repeat([]byte{0x61}, rapid.SampledFrom([]int{255, 256, 257, 600, 5000}).Draw(t, "runlen"))
+			if rapid.Bool().Draw(t, "terminated") {
+				run = append(run, 0)
+			}
+			in = append(run, in...)
+		}
 		ops := rapid.SliceOfN(readOp, 0, 60).Draw(t, "ops")
 		c := RCase{Input: vk.Hex(in), Ops: ops}
 		rec.Eval()
